@@ -166,15 +166,34 @@ func genTimeStream(rg *rng, st genStats, withQuirks bool) *stream {
 	if be {
 		arch = 1
 	}
+	// the file_id message may carry time_created (a date_time that is NOT field 253: it must never become the reference)
+	if rg.bool() {
+		tc := uint32(0x30000000 + rg.intn(1<<24))
+		s.Records = append(s.Records,
+			record{Kind: "D", Local: 5, Arch: arch, Gmn: 0, Fields: []fieldDefS{{0, 1, 0}, {4, 4, 0x86}}},
+			record{Kind: "M", Local: 5, Pay: append([]byte{4}, put32(be, tc)...)})
+		st["file_id_with_time_created"]++
+	} else {
+		s.Records = append(s.Records,
+			record{Kind: "D", Local: 5, Gmn: 0, Fields: []fieldDefS{{0, 1, 0}}},
+			record{Kind: "M", Local: 5, Pay: []byte{4}})
+	}
+	// local 3 variants: activity with local_timestamp only (0), or a message WITHOUT a timestamp field that compressed
+	// headers can address -- file_creator (1) or a message outside the profile (2): its compressed headers still advance the reference
+	l3 := 0
+	if rg.chance(1, 3) {
+		l3 = 1 + rg.intn(2)
+	}
 	s.Records = append(s.Records,
-		record{Kind: "D", Local: 5, Gmn: 0, Fields: []fieldDefS{{0, 1, 0}}},
-		record{Kind: "M", Local: 5, Pay: []byte{4}},
 		// local 0: record with timestamp + heart_rate; local 1: record with heart_rate only (for compressed headers)
 		record{Kind: "D", Local: 0, Arch: arch, Gmn: uint16(fit.MesgNumRecord), Fields: []fieldDefS{{253, 4, 0x86}, {3, 1, 2}}},
 		record{Kind: "D", Local: 1, Arch: arch, Gmn: uint16(fit.MesgNumRecord), Fields: []fieldDefS{{3, 1, 2}}},
 		// local 2: activity with timestamp + local_timestamp(5); local 3: activity with local_timestamp only
 		record{Kind: "D", Local: 2, Arch: arch, Gmn: uint16(fit.MesgNumActivity), Fields: []fieldDefS{{253, 4, 0x86}, {5, 4, 0x86}}},
-		record{Kind: "D", Local: 3, Arch: arch, Gmn: uint16(fit.MesgNumActivity), Fields: []fieldDefS{{5, 4, 0x86}}},
+		map[int]record{
+			0: {Kind: "D", Local: 3, Arch: arch, Gmn: uint16(fit.MesgNumActivity), Fields: []fieldDefS{{5, 4, 0x86}}},
+			1: {Kind: "D", Local: 3, Arch: arch, Gmn: uint16(fit.MesgNumFileCreator), Fields: []fieldDefS{{0, 2, 0x84}}},
+			2: {Kind: "D", Local: 3, Arch: arch, Gmn: 0xFF00, Fields: []fieldDefS{{1, 2, 0x84}}}}[l3],
 		// local 6: an unknown message addressed with compressed headers is not possible (local < 4); event with timestamp on local 7
 		record{Kind: "D", Local: 7, Arch: arch, Gmn: uint16(fit.MesgNumEvent), Fields: []fieldDefS{{253, 4, 0x86}, {0, 1, 0}}})
 	ts := uint32(0x30000000 + rg.intn(1<<24))
@@ -247,7 +266,12 @@ func genTimeStream(rg *rng, st genStats, withQuirks bool) *stream {
 				case 2:
 					off = rg.intn(32)
 				}
-				s.Records = append(s.Records, record{Kind: "Z", Local: 1, Offset: byte(off), Pay: []byte{byte(rg.intn(200))}})
+				if l3 != 0 && rg.chance(1, 4) {
+					s.Records = append(s.Records, record{Kind: "Z", Local: 3, Offset: byte(off), Pay: []byte{byte(rg.intn(200)), 0}})
+					st["compressed_records_of_msg_without_timestamp_field"]++
+				} else {
+					s.Records = append(s.Records, record{Kind: "Z", Local: 1, Offset: byte(off), Pay: []byte{byte(rg.intn(200))}})
+				}
 				st[fmt.Sprintf("compressed_offset_%02d", off)]++
 			}
 			st["compressed_runs_"+bucket(run)]++
@@ -261,7 +285,7 @@ func genTimeStream(rg *rng, st genStats, withQuirks bool) *stream {
 			if rg.chance(1, 10) {
 				lv = 0xFFFFFFFF
 			}
-			if rg.bool() {
+			if rg.bool() && l3 == 0 {
 				s.Records = append(s.Records, record{Kind: "M", Local: 3, Pay: put32(be, lv)})
 			} else {
 				s.Records = append(s.Records, record{Kind: "M", Local: 2, Pay: append(put32(be, ts), put32(be, lv)...)})
@@ -372,7 +396,12 @@ func runC13(args []string) int {
 					free = append(free, l)
 				}
 			}
-			if len(free) > 0 {
+			if len(free) > 0 && rg.chance(1, 4) {
+				// the very first data record (the file_id message) on a local type that has no definition
+				s.Records[1].Local = free[rg.intn(len(free))]
+				s.fillHex()
+				r.hist("first_data_record_on_undefined_local")
+			} else if len(free) > 0 {
 				l := free[rg.intn(len(free))]
 				pos := 2 + rg.intn(len(s.Records)-1)
 				rec := record{Kind: "M", Local: l, Pay: rg.bytes(rg.intn(6))}
